@@ -66,6 +66,13 @@ func (s *SpokFile) Env() []string {
 	return results
 }
 
+// ExpandGlobs expands every glob pattern used in the spokfile (task dependencies and outputs)
+// and saves the results to the Globs map, Run does this itself, it is exported for callers that
+// need the matches without running anything e.g. --clean.
+func (s *SpokFile) ExpandGlobs() error {
+	return s.expandGlobs()
+}
+
 // expandGlobs gathers up all the glob patterns in every task in the spokfile and expands them
 // saving the results to the Globs map as e.g. {"**/*.go": ["file1.go", "file2.go"]}.
 func (s *SpokFile) expandGlobs() error {
